@@ -89,7 +89,8 @@ VmOf(r, inputs, Q) == [k \in 1..Len(Q) |-> [i \in 1..Len(Q[k]) |->
 L1Perim(P) == SumF([i \in 1..Len(P) |-> Abs(Nxt(P, i)[1] - P[i][1]) + Abs(Nxt(P, i)[2] - P[i][2])], Len(P))
 AreaQuot(P) == IF Len(P) = 0 THEN 0 ELSE Sat(Abs(Area2(P)) \div (2 * L1Perim(P) + 2 * Len(P)))
 XIdx(id, n) == {i \in 1..n : i % 5 = id % 5}                \* sample points re-measured by TLC (rotates with the case id)
-CoverOK(Q, cover, id) == LET E == AllEdges(Q) IN
+(* a returned "path" with fewer than 2 vertices has no edges (the harness measures it the same way) *)
+CoverOK(Q, cover, id) == LET E == AllEdges(SelectSeq(Q, LAMBDA p : Len(p) >= 2)) IN
   \A i \in XIdx(id, Len(fam.pts)) : IF OnAny(E, fam.pts[i]) THEN cover[i] = 99 ELSE cover[i] = Wind(E, fam.pts[i])
 RawOK(ev, inputs, id, isCase) ==
   LET Q == ev.raw
